@@ -9,6 +9,7 @@ package main
 import (
 	"io"
 	"log"
+	"os"
 	"strconv"
 	"strings"
 
@@ -51,6 +52,7 @@ func gen(a Args, out *Out) {
 		{6, connsim.GatedDoubleClose},
 		{10, connsim.GatedOversizeBacklog},
 		{6, connsim.GatedReaderFirst},
+		{10, connsim.GatedPartialFrameClose},
 		{30, func(r *Rng) (string, connsim.Cfg) { return connsim.FreeStream(r, false) }},
 		{16, func(r *Rng) (string, connsim.Cfg) { return connsim.FreeStream(r, true) }},
 		{12, connsim.FreeRace},
@@ -66,21 +68,40 @@ func gen(a Args, out *Out) {
 		{8, connsim.FreeTransportBacklog},
 		{8, connsim.FreeServerGC},
 		{24, connsim.FreeEnv},
+		{6, connsim.FreePartialFrameClose},
 		{2, connsim.FreePeerPause},
 		{1, connsim.FreePeerPauseDefault},
 	}
 	var jobs []job
 	var ins []Sx
-	for _, p := range plan {
-		r := rng.Fork()
-		for k := 0; k < p.n*mult; k++ {
-			kind, c := p.f(r)
-			jobs = append(jobs, job{kind, c})
-			ins = append(ins, c.Sx())
+	// VERIF_FOCUS_KINDS=kind1,kind2: spend the run on these generator classes only (used when a
+	// correspondence broke on cases of these kinds: many varied cases near them instead of the
+	// whole mix)
+	focus := map[string]bool{}
+	for _, k := range strings.Split(os.Getenv("VERIF_FOCUS_KINDS"), ",") {
+		if k != "" {
+			focus[k] = true
+		}
+	}
+	rounds := 1
+	if len(focus) > 0 {
+		rounds = 12
+	}
+	for round := 0; round < rounds; round++ {
+		for _, p := range plan {
+			r := rng.Fork()
+			for k := 0; k < p.n*mult; k++ {
+				kind, c := p.f(r)
+				if len(focus) > 0 && !focus[kind] {
+					continue
+				}
+				jobs = append(jobs, job{kind, c})
+				ins = append(ins, c.Sx())
+			}
 		}
 	}
 	rs := rng.Fork()
-	for k := 0; k < 8*mult; k++ {
+	for k := 0; k < 8*mult && (len(focus) == 0 || focus["server-multi"]); k++ {
 		kind, in := connsim.ServerScenario(rs)
 		jobs = append(jobs, job{kind, connsim.Cfg{Mode: 4}})
 		ins = append(ins, in)
